@@ -1,9 +1,37 @@
-/- driver handler of the `join` stream (line protocol, see Main.lean) -/
+/- driver handler of the `join` stream -/
 import AslModel.Drv.Util
+import AslModel.Join
+import AslModel.Retry
 namespace Asl.Drv.Join
-open Asl
+open Asl Asl.Drv
+
+def pairs : Json → Option (List (Nat × Json))
+  | .arr xs => xs.mapM (fun p => match p with
+      | .arr [.num i, v] => if i < 0 then none else some (i.toNat, v)
+      | _ => none)
+  | _ => none
+
+def optArr : Option (List Json) → Json
+  | some vs => .arr vs
+  | none => .null
 
 def handle : List String → String
+  | ["feed", n, sigma] =>
+    match n.toNat?, (rd sigma).bind pairs with
+    | some n, some σ => "ok\t" ++ js (optArr (Join.result (Join.feed (Join.init n) σ)))
+    | _, _ => "unsupported"
+  | ["map", n, m, cs] =>
+    match n.toNat?, m.toNat?, (rd cs).bind pairs with
+    | some n, some m, some cs =>
+      let step := fun (acc : MapSt × Nat) (c : Nat × Json) =>
+        let st := acc.1.complete c.1 c.2
+        (st, max acc.2 st.inFlight)
+      let st0 := MapSt.init n m
+      let (st, mx) := cs.foldl step (st0, st0.inFlight)
+      "ok\t" ++ js (.obj [(S "launched", .arr (st.launched.map (fun i => Json.num (Int.ofNat i)))),
+                         (S "inFlight", .num (Int.ofNat st.inFlight)), (S "maxInFlight", .num (Int.ofNat mx)),
+                         (S "result", optArr (Join.result st.slots))])
+    | _, _, _ => "unsupported"
   | _ => "bad-op"
 
 end Asl.Drv.Join
